@@ -6,6 +6,7 @@
 -/
 import M4riProofs.W.RowCol
 import M4riProofs.W.Perm
+import M4riProofs.GenTieMem
 namespace M4ri.Props.C13
 open M4ri M4ri.Mzd
 
@@ -131,5 +132,20 @@ example : exM.WF ∧ (∀ k, k < min (#[1, 1] : Array Nat).size exM.nrows → (#
   intro k hk
   have : k = 0 ∨ k = 1 := by simp [exM] at hk; omega
   rcases this with rfl | rfl <;> decide
+
+
+/-! ### tie to the C text (word-level kernels on the memory model): the functions `Gen.C.mzd…` are GENERATED from
+    /repo/m4ri by vlib/ctrans.py (clang AST) on every check; a matrix is its memory image `memOf M : row → word → BitVec 64`.
+    Each theorem: the generated C function run on the image of a well-formed model matrix = the image of the model
+    function's result (hence also: no cell outside the addressed words changes) -/
+#check @M4ri.GenTieMem.mzdRowSwap_eq
+#check @M4ri.GenTieMem.mzdRowAddOffset_eq
+#check @M4ri.GenTieMem.mzdRowClearOffset_eq
+#check @M4ri.GenTieMem.mzdReadBits_eq
+#check @M4ri.GenTieMem.mzdXorBits_eq
+#check @M4ri.GenTieMem.mzdAndBits_eq
+#check @M4ri.GenTieMem.mzdClearBits_eq
+#check @M4ri.GenTieMem.mzdWriteBit_eq
+#check @M4ri.GenTieMem.mzdReadBit_eq
 
 end M4ri.Props.C13
